@@ -331,7 +331,7 @@ def run_case(case, ctx):  # noqa: C901, PLR0912
 
 
 def run(ctx):
-    ctx.run_given(cases(big_ok=ctx.tier == "thorough"), run_case, ctx.n(quick=200, thorough=900))
+    ctx.run_given(cases(big_ok=ctx.tier == "thorough"), run_case, ctx.n(quick=120, thorough=900))
 
 
 def replay(case, ctx):
